@@ -326,17 +326,24 @@ static void distrib_case(unsigned cfg, unsigned n, int until, unsigned long flag
   if (r == 0 && n == NMAX && nroots == 1 && until > 5 && (flags & 1)) distrib_w4 = 1;
   if (r == 0 && n == 3 && nroots == 2) distrib_w3 = 1;
 }
+#ifndef NSLICE
+#define NSLICE 1
+#endif
+#ifndef SLICE
+#define SLICE 0
+#endif
 VP_HARNESS(h_distrib)
 {
   T = vp_seed_build(SEED, 0); build_table();
   static const int untils[NU] = UNTILS;
-  unsigned cfg = (unsigned) vp_in_range(0, 2), n = (unsigned) vp_in_range(0, NMAX), ui = (unsigned) vp_in_range(0, NU - 1); unsigned long flags = vp_in64();
-  int rev = (int) (flags & 1);
-  for (unsigned vc = 0; vc < 3; vc++) for (unsigned vn = 0; vn <= NMAX; vn++) for (unsigned vu = 0; vu < NU; vu++) for (int vr = 0; vr < 2; vr++)
-    if (cfg == vc && n == vn && ui == vu && rev == vr) distrib_case(vc, vn, untils[vu], (flags & ~1UL) | (unsigned long) vr);
-  VP_ASSUME(distrib_done);
-  VP_WITNESS_IF(distrib_w4, "NMAX sets over the whole machine in reverse order");
-  VP_WITNESS_IF(distrib_w3, "a zero-weight chunk merged into its neighbour");
+  /* every argument is concrete inside a run (hwloc_distrib recurses on roots, n and until); which run executes is symbolic; the
+   * runs are dealt to NSLICE harness instances */
+  unsigned cfg = (unsigned) vp_in_range(0, 2), n = (unsigned) vp_in_range(0, NMAX), ui = (unsigned) vp_in_range(0, NU - 1), fl = (unsigned) vp_in_range(0, 2), ci = 0;
+  for (unsigned vc = 0; vc < 3; vc++) for (unsigned vn = 0; vn <= NMAX; vn++) for (unsigned vu = 0; vu < NU; vu++) for (unsigned vf = 0; vf < 3; vf++) {
+    if (vf == 2 && !(vn == 2 && vu == 0)) continue;      /* an unknown flag bit: once per roots configuration */
+    if ((ci++ % NSLICE) == SLICE && cfg == vc && n == vn && ui == vu && fl == vf) distrib_case(vc, vn, untils[vu], vf);
+  }
+  VP_WITNESS_IF(distrib_done, "a call of this slice executed");
 }
 
 /* seed sanity: the real hwloc_topology_check() accepts the seed (run natively by the driver's self test and under CBMC) */
